@@ -38,8 +38,8 @@ def gather_cases(ctx: Ctx):
             cases.append(("sweep", T.render_chain(seps, st), T.flat_json(T.chain_expr(seps))))
     ctx.coverage["sweep_exhaustive_up_to_separators"] = maxlen
     # B: random trees, several renderings each
-    n_trees = ctx.pick(250, 4000)
-    max_leaves = ctx.pick(14, 40)
+    n_trees = ctx.pick(250, 1500)
+    max_leaves = ctx.pick(14, 30)
     for _ in range(n_trees):
         n = rng.randint(1, max_leaves) if rng.random() < 0.8 else rng.randint(1, 4)
         e = T.rand_expr(rng, n)
@@ -62,7 +62,7 @@ def gather_cases(ctx: Ctx):
 
 
 def run(ctx: Ctx) -> None:
-    ctx.rule = ("strings generated from random trees (1..14/40 leaves; keys of all ranges, packages with/without repeatability, UB1-3) in four "
+    ctx.rule = ("strings generated from random trees (1..14/30 leaves; keys of all ranges, packages with/without repeatability, UB1-3) in four "
                 "bracket/spelling/whitespace styles, the exhaustive sweep of all separator sequences up to length 5/6, 24 long alternating chains, corpus; "
                 "distinct = distinct strings, non-trivial = at least one operator or bracket")
     changed = extract.regenerate(["CharClasses", "Grammar"])
